@@ -26,7 +26,10 @@ var c10Reader rjson.ValueReader // long-lived reader: reused across every input 
 var c10Entries = []entry{
 	{"Valid", func(in []byte, b *rjson.Buffer) (int, bool, error) { rjson.Valid(in, b); return 0, false, nil }},
 	{"SkipValue", func(in []byte, b *rjson.Buffer) (int, bool, error) { p, e := rjson.SkipValue(in, b); return p, true, e }},
-	{"SkipValueFast", func(in []byte, b *rjson.Buffer) (int, bool, error) { p, e := rjson.SkipValueFast(in, b); return p, true, e }},
+	{"SkipValueFast", func(in []byte, b *rjson.Buffer) (int, bool, error) {
+		p, e := rjson.SkipValueFast(in, b)
+		return p, true, e
+	}},
 	{"HandleArrayValues", func(in []byte, b *rjson.Buffer) (int, bool, error) {
 		p, e := rjson.HandleArrayValues(in, &nopHandler{}, b)
 		return p, true, e
@@ -43,25 +46,43 @@ var c10Entries = []entry{
 		_, p, e := rjson.UnescapeStringContent(in, make([]byte, 3, 5))
 		return p, true, e
 	}},
-	{"StdLibCompatibleString", func(in []byte, b *rjson.Buffer) (int, bool, error) { _ = rjson.StdLibCompatibleString(string(in)); return 0, false, nil }},
+	{"StdLibCompatibleString", func(in []byte, b *rjson.Buffer) (int, bool, error) {
+		_ = rjson.StdLibCompatibleString(string(in))
+		return 0, false, nil
+	}},
 	{"StdLibCompatibleStringBytes", func(in []byte, b *rjson.Buffer) (int, bool, error) {
 		_ = rjson.StdLibCompatibleStringBytes(in, nil)
 		_ = rjson.StdLibCompatibleStringBytes(in, make([]byte, 2, 3))
 		return 0, false, nil
 	}},
-	{"ReadUint64", func(in []byte, b *rjson.Buffer) (int, bool, error) { _, p, e := rjson.ReadUint64(in); return p, true, e }},
-	{"ReadUint32", func(in []byte, b *rjson.Buffer) (int, bool, error) { _, p, e := rjson.ReadUint32(in); return p, true, e }},
+	{"ReadUint64", func(in []byte, b *rjson.Buffer) (int, bool, error) {
+		_, p, e := rjson.ReadUint64(in)
+		return p, true, e
+	}},
+	{"ReadUint32", func(in []byte, b *rjson.Buffer) (int, bool, error) {
+		_, p, e := rjson.ReadUint32(in)
+		return p, true, e
+	}},
 	{"ReadUint", func(in []byte, b *rjson.Buffer) (int, bool, error) { _, p, e := rjson.ReadUint(in); return p, true, e }},
 	{"ReadInt64", func(in []byte, b *rjson.Buffer) (int, bool, error) { _, p, e := rjson.ReadInt64(in); return p, true, e }},
 	{"ReadInt32", func(in []byte, b *rjson.Buffer) (int, bool, error) { _, p, e := rjson.ReadInt32(in); return p, true, e }},
 	{"ReadInt", func(in []byte, b *rjson.Buffer) (int, bool, error) { _, p, e := rjson.ReadInt(in); return p, true, e }},
-	{"ReadFloat64", func(in []byte, b *rjson.Buffer) (int, bool, error) { _, p, e := rjson.ReadFloat64(in); return p, true, e }},
-	{"ReadStringBytes", func(in []byte, b *rjson.Buffer) (int, bool, error) { _, p, e := rjson.ReadStringBytes(in, nil); return p, true, e }},
+	{"ReadFloat64", func(in []byte, b *rjson.Buffer) (int, bool, error) {
+		_, p, e := rjson.ReadFloat64(in)
+		return p, true, e
+	}},
+	{"ReadStringBytes", func(in []byte, b *rjson.Buffer) (int, bool, error) {
+		_, p, e := rjson.ReadStringBytes(in, nil)
+		return p, true, e
+	}},
 	{"ReadStringBytes/dst", func(in []byte, b *rjson.Buffer) (int, bool, error) {
 		_, p, e := rjson.ReadStringBytes(in, make([]byte, 1, 2))
 		return p, true, e
 	}},
-	{"ReadString", func(in []byte, b *rjson.Buffer) (int, bool, error) { _, p, e := rjson.ReadString(in, nil); return p, true, e }},
+	{"ReadString", func(in []byte, b *rjson.Buffer) (int, bool, error) {
+		_, p, e := rjson.ReadString(in, nil)
+		return p, true, e
+	}},
 	{"ReadString/scratch", func(in []byte, b *rjson.Buffer) (int, bool, error) {
 		s := []byte("dirty")
 		_, p, e := rjson.ReadString(in, &s)
@@ -87,19 +108,63 @@ var c10Entries = []entry{
 		}
 		return p, true, e
 	}},
-	{"ReadObject", func(in []byte, b *rjson.Buffer) (int, bool, error) { _, p, e := rjson.ReadObject(in); return p, true, e }},
+	{"ReadObject", func(in []byte, b *rjson.Buffer) (int, bool, error) {
+		_, p, e := rjson.ReadObject(in)
+		return p, true, e
+	}},
 	{"ReadArray", func(in []byte, b *rjson.Buffer) (int, bool, error) { _, p, e := rjson.ReadArray(in); return p, true, e }},
-	{"ValueReader.ReadValue", func(in []byte, b *rjson.Buffer) (int, bool, error) { _, p, e := c10Reader.ReadValue(in); return p, true, e }},
-	{"ValueReader.ReadObject", func(in []byte, b *rjson.Buffer) (int, bool, error) { _, p, e := c10Reader.ReadObject(in); return p, true, e }},
-	{"ValueReader.ReadArray", func(in []byte, b *rjson.Buffer) (int, bool, error) { _, p, e := c10Reader.ReadArray(in); return p, true, e }},
-	{"DecodeBool", func(in []byte, b *rjson.Buffer) (int, bool, error) { var v bool; p, e := rjson.DecodeBool(in, &v); return p, true, e }},
-	{"DecodeFloat64", func(in []byte, b *rjson.Buffer) (int, bool, error) { var v float64; p, e := rjson.DecodeFloat64(in, &v); return p, true, e }},
-	{"DecodeInt64", func(in []byte, b *rjson.Buffer) (int, bool, error) { var v int64; p, e := rjson.DecodeInt64(in, &v); return p, true, e }},
-	{"DecodeInt32", func(in []byte, b *rjson.Buffer) (int, bool, error) { var v int32; p, e := rjson.DecodeInt32(in, &v); return p, true, e }},
-	{"DecodeInt", func(in []byte, b *rjson.Buffer) (int, bool, error) { var v int; p, e := rjson.DecodeInt(in, &v); return p, true, e }},
-	{"DecodeUint64", func(in []byte, b *rjson.Buffer) (int, bool, error) { var v uint64; p, e := rjson.DecodeUint64(in, &v); return p, true, e }},
-	{"DecodeUint32", func(in []byte, b *rjson.Buffer) (int, bool, error) { var v uint32; p, e := rjson.DecodeUint32(in, &v); return p, true, e }},
-	{"DecodeUint", func(in []byte, b *rjson.Buffer) (int, bool, error) { var v uint; p, e := rjson.DecodeUint(in, &v); return p, true, e }},
+	{"ValueReader.ReadValue", func(in []byte, b *rjson.Buffer) (int, bool, error) {
+		_, p, e := c10Reader.ReadValue(in)
+		return p, true, e
+	}},
+	{"ValueReader.ReadObject", func(in []byte, b *rjson.Buffer) (int, bool, error) {
+		_, p, e := c10Reader.ReadObject(in)
+		return p, true, e
+	}},
+	{"ValueReader.ReadArray", func(in []byte, b *rjson.Buffer) (int, bool, error) {
+		_, p, e := c10Reader.ReadArray(in)
+		return p, true, e
+	}},
+	{"DecodeBool", func(in []byte, b *rjson.Buffer) (int, bool, error) {
+		var v bool
+		p, e := rjson.DecodeBool(in, &v)
+		return p, true, e
+	}},
+	{"DecodeFloat64", func(in []byte, b *rjson.Buffer) (int, bool, error) {
+		var v float64
+		p, e := rjson.DecodeFloat64(in, &v)
+		return p, true, e
+	}},
+	{"DecodeInt64", func(in []byte, b *rjson.Buffer) (int, bool, error) {
+		var v int64
+		p, e := rjson.DecodeInt64(in, &v)
+		return p, true, e
+	}},
+	{"DecodeInt32", func(in []byte, b *rjson.Buffer) (int, bool, error) {
+		var v int32
+		p, e := rjson.DecodeInt32(in, &v)
+		return p, true, e
+	}},
+	{"DecodeInt", func(in []byte, b *rjson.Buffer) (int, bool, error) {
+		var v int
+		p, e := rjson.DecodeInt(in, &v)
+		return p, true, e
+	}},
+	{"DecodeUint64", func(in []byte, b *rjson.Buffer) (int, bool, error) {
+		var v uint64
+		p, e := rjson.DecodeUint64(in, &v)
+		return p, true, e
+	}},
+	{"DecodeUint32", func(in []byte, b *rjson.Buffer) (int, bool, error) {
+		var v uint32
+		p, e := rjson.DecodeUint32(in, &v)
+		return p, true, e
+	}},
+	{"DecodeUint", func(in []byte, b *rjson.Buffer) (int, bool, error) {
+		var v uint
+		p, e := rjson.DecodeUint(in, &v)
+		return p, true, e
+	}},
 	{"DecodeString", func(in []byte, b *rjson.Buffer) (int, bool, error) {
 		var v string
 		s := []byte("x")
@@ -197,8 +262,25 @@ func c10Handler(in []byte, kind byte, codes []int64, reentrant bool, buf *rjson.
 
 // CheckC10: Kind "handler": Ints = [kind, reentrant, buffer config, codes...]; any other
 // kind: every entry point on In (Ints[0] = entry index or absent for all, Ints[1] = buffer config).
+// c10TokenType: TokenType is an exported uint8 type, so every one of its 256 values can reach
+// its String method (directly or through fmt); it must return normally for all of them.
+func c10TokenType(v uint8) error {
+	return core.Catch(func() error {
+		t := rjson.TokenType(v)
+		_ = t.String()
+		_ = fmt.Sprintf("%v %s", t, t)
+		return nil
+	})
+}
+
 func CheckC10(c *core.Case) error {
 	in := []byte(c.In)
+	if c.Kind == "tokentype" {
+		if len(c.Ints) < 1 {
+			return fmt.Errorf("bad case")
+		}
+		return c10TokenType(uint8(c.Ints[0]))
+	}
 	if c.Kind == "handler" {
 		if len(c.Ints) < 3 {
 			return fmt.Errorf("bad case")
